@@ -189,8 +189,16 @@ pub fn run_scenario(sc: &Scenario) -> Judged {
                 // could have cached results from before the history existed
                 let first_go = !go_since_newgame;
                 go_since_newgame = true;
-                if line.trim() != "go depth 1" || !first_go {
+                // depth 1, with or without a clock the search cannot run out of
+                let is_depth1 = {
+                    let t: Vec<&str> = line.split_whitespace().collect();
+                    t.windows(2).any(|w| w[0] == "depth" && w[1] == "1") && !t.contains(&"infinite")
+                };
+                if !is_depth1 || !first_go {
                     continue;
+                }
+                if line.trim() != "go depth 1" {
+                    j.probes.add("depth1_searches_with_a_clock", 1);
                 }
                 let occs = occurrences(&history);
                 if occs.is_empty() {
@@ -408,9 +416,59 @@ fn gen_far_repetition(rng: &mut Rng, start: &Pos) -> Option<Vec<RMove>> {
     Some(moves)
 }
 
+/// A history at whose end the side to move has a SINGLE legal move, and that move brings a
+/// position about for the third time (a perpetual: piece out, king steps, piece back with
+/// check, king must step back). Returns (start, moves) or None within the try budget.
+fn gen_forced_repetition(rng: &mut Rng) -> Option<(Pos, Vec<RMove>)> {
+    for _ in 0..40 {
+        let mut s0 = gen::sparse_position(rng);
+        s0.halfmove = 0;
+        let attackers = reversible_moves(&s0);
+        for a in attackers.iter().filter(|m| kind(s0.sq[m.from as usize]) != KING) {
+            let p1 = s0.make(a);
+            for b in p1.legal_moves().iter().filter(|m| m.flags == 0 && kind(p1.sq[m.from as usize]) == KING) {
+                let p2 = p1.make(b);
+                let back = RMove { from: a.to, to: a.from, promo: 0, flags: 0 };
+                let Some(c) = p2.find_uci(&back.uci()) else { continue };
+                if c.flags != 0 {
+                    continue;
+                }
+                let p3 = p2.make(&c);
+                let replies = p3.legal_moves();
+                if replies.len() != 1 || !p3.in_check() {
+                    continue;
+                }
+                let d = replies[0];
+                if p3.make(&d).key() != s0.key() {
+                    continue;
+                }
+                return Some((s0, vec![*a, *b, c, d, *a, *b, c]));
+            }
+        }
+    }
+    None
+}
+
+/// The first go of a game, depth 1: plain, or with a clock it cannot run out of.
+fn depth1_go(rng: &mut Rng) -> String {
+    match rng.below(4) {
+        0 => "go depth 1 movetime 3600000".to_string(),
+        1 => "go wtime 3600000 btime 3600000 winc 0 binc 0 depth 1".to_string(),
+        _ => "go depth 1".to_string(),
+    }
+}
+
 pub fn generate(seed: u64) -> Scenario {
     let mut rng = Rng::new(seed);
     let mut lines = vec![];
+    if rng.chance(1, 16) {
+        if let Some((start, ms)) = gen_forced_repetition(&mut rng) {
+            lines.push("ucinewgame".to_string());
+            lines.push(format!("position fen {} moves {}", start.to_fen(), gen::moves_uci(&ms).join(" ")));
+            lines.push(depth1_go(&mut rng));
+            return Scenario { lines, key_seed: rng.next_u64() };
+        }
+    }
     if rng.chance(1, 12) {
         // far repetition
         let start = if rng.chance(1, 2) {
@@ -428,7 +486,7 @@ pub fn generate(seed: u64) -> Scenario {
             let root = if start == Pos::startpos() { "startpos".to_string() } else { format!("fen {}", start.to_fen()) };
             lines.push("ucinewgame".to_string());
             lines.push(format!("position {} moves {}", root, gen::moves_uci(&ms).join(" ")));
-            lines.push("go depth 1".to_string());
+            lines.push(depth1_go(&mut rng));
             return Scenario { lines, key_seed: rng.next_u64() };
         }
     }
@@ -466,7 +524,7 @@ pub fn generate(seed: u64) -> Scenario {
                     // a position command without moves after one with: the history is gone
                     lines.push(format!("position {}", root));
                 }
-                lines.push("go depth 1".to_string());
+                lines.push(depth1_go(&mut rng));
             }
         }
     }
